@@ -49,11 +49,13 @@ def Cases(tier):
   limit = 7 if tier == 'quick' else 40
   rng = common.Rng(PROP)
   cases = []
-  n_fam = 2 * len(families.SEM_FAMILIES) if tier == 'quick' else 40
+  n_fam = (2 if tier == 'quick' else 6) * len(families.SEM_FAMILIES)
   for i in range(n + n_fam):
     if i >= n:
       name, fn = families.SEM_FAMILIES[(i - n) % len(families.SEM_FAMILIES)]
       prog, query, feats = fn(rng)
+      # the base is the long form: the variants introduce the shorthand
+      prog = meta.ClearForm(prog, 'implication')
     else:
       prog, query, feats = gen.Generate(rng, gen.SUGAR)
     if i % 4 == 0 and i < n:
@@ -70,7 +72,7 @@ def Cases(tier):
   return cases + semrun.Reproducers(PROP)
 
 
-REQUIRED = ['fam_repeated_call', 'fam_double_negation', 'fam_bound_in_repeated',
+REQUIRED = ['fam_implication_conj', 'fam_multi_disj_conj', 'fam_partial_call_in_combine', 'fam_repeated_call', 'fam_double_negation', 'fam_bound_in_repeated',
             'sugar_head_positional_as_named', 'sugar_head_value_long',
             'sugar_head_value_long_agg', 'sugar_atom_positional_as_named',
             'sugar_eq_single', 'sugar_combine_syntax',
